@@ -583,8 +583,15 @@ def build_pool(stg, c):
     class SubFrame(stg.Frame):
         pass
 
+    made = [0]
+
     def ok_frame(p):
         cls = SubFrame if p.get('sub') else stg.Frame
+        made[0] += 1
+        if not p.get('sub') and not p.get('flip') and made[0] % 3 == 0:
+            # every third compatible frame comes from the from_data route WITHOUT a metadata argument (default argument), the
+            # next ones could share whatever that route shares between calls
+            return stg.Frame.from_data(g['df'], g['dt'], g['fch1'], g['asc'], np.zeros((p['tchans'], g['fchans'])))
         if p.get('flip') and not g['asc']:
             return cls(fchans=g['fchans'], tchans=p['tchans'], df=g['df'], dt=g['dt'], fch1=fmin_ref, ascending=True,
                        t_start=1.7e9 + p['t0'])
